@@ -117,7 +117,7 @@ class Ctx:
     def violation(self, key: str, replay: dict) -> None:
         """Record a violation. `key` is the finding key (specific: configuration class, failing
         operation/clause, expected vs observed class)."""
-        size = len(json.dumps(jsonable(replay)))
+        size = replay.get("_size") or len(json.dumps(jsonable(replay)))
         k = self._known_match(key)
         bucket = self.known_hits if k is not None else self.viol
         if key in bucket and bucket[key]["_size"] <= size:
@@ -207,8 +207,18 @@ class Part:
             self.notes.append(s)
 
     def violation(self, key: str, replay: dict) -> None:
+        raw = None
+        try:
+            import base64
+            import pickle
+
+            raw = base64.b64encode(pickle.dumps(replay)).decode()
+        except Exception:
+            pass
         replay = jsonable(replay)
-        size = len(json.dumps(replay))
+        if raw is not None and len(raw) < 200000:
+            replay["raw_pickle_b64"] = raw  # exact arguments for --replay (JSON loses tuples/enums/NaN)
+        size = len(json.dumps(replay)) - (len(raw) if raw else 0)
         if key in self.viol and self.viol[key]["_size"] <= size:
             self.viol[key]["_count"] += 1
             return
@@ -257,6 +267,22 @@ def main_wrapper(run: Callable[[str], int]) -> None:
     ap.add_argument("--replay", default=None)
     a = ap.parse_args()
     try:
+        mod = sys.modules.get(run.__module__)
+        if a.replay is not None and mod is not None and hasattr(mod, "replay_case"):
+            import base64
+            import pickle
+
+            d = json.load(open(a.replay))
+            if "raw_pickle_b64" not in d:
+                print("replay file has no raw_pickle_b64 section")
+                sys.exit(3)
+            raw = pickle.loads(base64.b64decode(d["raw_pickle_b64"]))
+            part = Part()
+            mod.replay_case(raw, part)  # re-executes exactly this one case, no explorer
+            keys = sorted(part.viol)
+            print(f"[{d.get('property')}] replay of {os.path.basename(a.replay)}: "
+                  f"{'VIOLATED: ' + '; '.join(keys) if keys else 'holds (no violation on this tree)'}")
+            sys.exit(1 if keys else 0)
         rc = run(a.tier) if a.replay is None else run(a.tier, replay=a.replay)  # type: ignore
     except InternalError as e:
         print(f"INTERNAL-ERROR: {e}", file=sys.stderr)
